@@ -34,6 +34,10 @@ pub fn run(ctx: &Ctx) -> i32 {
             cases.push(Cli { name: format!("label-colon-own-line-{spelled}"), text: Some(format!("{spelled}:\n    add r0 r0 r0\n    br {spelled}\nhalt\n")), image: None, uses_ext: "mnemonic-as-label" });
             cases.push(Cli { name: format!("operand-colon-{spelled}"), text: Some(format!("brnzp {spelled}:\nhalt\n")), image: None, uses_ext: "mnemonic-as-label" });
             cases.push(Cli { name: format!("label-comma-{spelled}"), text: Some(format!("{spelled}, add r0 r0 r0\nhalt\n")), image: None, uses_ext: "mnemonic-as-label" });
+            // a label that merely contains the mnemonic after a hex-looking prefix is an ordinary label
+            for prefix in ["x", "X", "0x"] {
+                cases.push(Cli { name: format!("label-{prefix}{spelled}"), text: Some(format!("lea r0 {prefix}{spelled}\n{prefix}{spelled} halt\n")), image: None, uses_ext: "none" });
+            }
         }
     }
     // raw xD words of all four sub-kinds reached at run time: via .fill in a source and as .lc3 images
